@@ -5,8 +5,8 @@
 set -u
 ID=$1; N=$2; shift 2
 CHECKS=${*:-$ID}
-src=/tmp/mut_out/$ID/$N
-dst=/verif/seeded/$ID/$N
+src=${MUTSRC:-/tmp/mut_out}/$ID/$N
+dst=/verif/seeded/$ID/${DSTN:-$N}
 mkdir -p "$dst"
 cp "$src"/patch.diff "$src"/meta.json "$dst"/ 2>/dev/null
 for f in demo.py demo.sh demo.rs; do [ -f "$src/$f" ] && cp "$src/$f" "$dst"/; done
